@@ -898,6 +898,12 @@ def c12(tier):
         big = cs[0].get("collide")
         record_and_validate(rep, cs, 80 if big else 10, 3 if big else 4, 900 if thorough else 400, SEED * 739 + j, crash=5,
                             powerloss=70, label="c12pl%d" % j, small=True, growth_crash=bool(big))
+    # value tables that GROW during the run (chained values of 33..100 KB: the table of parts passes several 256 KiB
+    # extensions): what an msync covers is taken from its address range, so data beyond a stale mapping length counts as
+    # not durable
+    for j in range(2 if thorough else 1):
+        record_and_validate(rep, [{"kind": "hash", "multi": True}], 6, 6, 500 if thorough else 320, SEED * 743 + j, crash=5,
+                            powerloss=70, label="c12plg%d" % j)
     if rep.extra.get("powerloss_images_with_data_dropped", 0) < 3:
         raise ToolError("power-loss images dropped no unsynced data (%s): vacuous" % rep.extra.get("powerloss_images_with_data_dropped"))
     nmt = 8 if thorough else 2
